@@ -75,6 +75,15 @@ chk('C13', 'TLA+ exact-arithmetic model of the tempo map and of the play() sched
     'Float results compared with exact rationals within 1e-9 relative; the unit-conversion clause is not decided by the specification (no floats in TLA+).',
     'DESIGN.md 5/C13')
 
+chk('C16', 'TLA+ state machine of edits and observations of one MidiFile (MidiFileObj) with the property as a state predicate; TLC demonstrates the stale-memo design violates it; every history (repaired design) replayed on one real MidiFile and compared with a freshly built file',
+    'TLC explores every history of 4 (thorough 5; 6 over a reduced alphabet) operations from add_track, tracks.append, del tracks[i], track append/insert/delete, message time assignment, ticks_per_beat / type assignment, iterate, length, merged_track, play, save. With the original caching rule (Memo = stale) TLC must produce a counterexample to ObservationIsFunctionOfContents (checked on every run); with the repaired rule the invariant holds and every history ending in an observation is replayed on ONE real MidiFile: after each step the live contents equal the specification state, and each observation equals both the specification value and the same observation on a freshly built MidiFile with identical contents (type 2 must refuse).',
+    'Messages are note_on / set_tempo (every third id) so that times depend on contents; play on a virtual clock.',
+    'DESIGN.md 5/C16')
+chk('C17', 'TLA+ model of the scoped process-wide charset with fault actions (CharsetScope); TLC demonstrates the unscoped design leaks; every (call, charset, fault kind, fault position) behaviour concretised and executed on the real MidiFile, observing meta text elsewhere afterwards',
+    'TLC enumerates {load, save} x 5 charsets (latin1, utf-8, cp1252, shift_jis, utf-16) x fault kind (truncation, invalid data byte, undecodable text, unknown charset; non-integer time, unencodable text, real-time message, unknown charset) x fault position (header or each of 3 events; truncation additionally at every byte offset of that event), thorough also all pairs of consecutive calls, with invariants ScopedCharset and InForceDuringCall; the design without try/finally must violate ScopedCharset (checked on every run). Each behaviour is executed on the real MidiFile; after every call, succeeded or raised, a text meta message is encoded and decoded elsewhere and must use latin1; successful calls must contain text.encode(charset) and reload to the same text.',
+    "Python's codecs instantiate the encoding function; faults that cannot occur for a charset degenerate to success.",
+    'DESIGN.md 5/C17')
+
 
 def build(not_applicable):
     checks = []
